@@ -18,7 +18,7 @@ claim("C06", "type-specialised SCCP over go/ssa on all ordered pairs of value ty
       "order on types is transitive and agrees with Kind(); no same-kind Less definitely panics; (R06b) Kind() constants distinct and registered once; "
       "(R06c) < > <= >= (and negations) in compareOps match the truth table of a strict total order; (R06d) every sort/ordered-range comparator "
       "decides through Value.Less in the forward direction; (R06e) max/min reducers pick by Less in the right direction; (R06f) the cached attribute-name order that GenericTuple.Less and Format walk is "
-      "only ever stored sorted; (R06g) no Less method returns the bare negation of a Less (>= instead of the reversed <); (R07d) no Less method reaches a "
+      "only ever stored sorted; (R06g) no Less method returns the bare negation of a Less (>= instead of the reversed <); (R06h) every sort.Interface implementation swaps each slice its Less indexes; (R07d) no Less method reaches a "
       "Hash call. Within-kind comparisons "
       "(value-level, e.g. Relation.Less with differing headings) are not decided.", NOTE, "DESIGN.md §3 C06")
 
@@ -28,7 +28,7 @@ claim("C01", "type-specialised SCCP over every pair of set representations (disp
       "UnionSet.unionSetSubsetBucket is unreachable; (R01b) element-type bucket == subset bucket of the set type its builder constructs, sets "
       "route to the generic bucket; (R01c) adding a foreign element to String/Bytes/Array/Dict always goes through toUnionSetWithItem (never "
       "dropped); (R01d) stored rows of two relations are only combined under explicit column projectors; (R02f, shared with C02) the derived count of a slot builder counts distinct slots; (R01e) Array.count is never used as a position in "
-      "Array.values; (R02g) Where/Without of every set representation return the receiver, a normalising constructor's result, or a built value tested for emptiness (one empty set); (R04d) raw rows stand in for projected rows only under isIdentity(); (R07e) no union by flattening member sets through one "
+      "Array.values; (R02g) Where/Without of every set representation return the receiver, a normalising constructor's result, or a built value tested for emptiness (one empty set); (R04d) raw rows stand in for projected rows only under isIdentity(); (R05d) dict maps rebuilt from entries keep every value of a key; (R07e) no union by flattening member sets through one "
       "set builder; (R03a, shared with C03) no operator writes "
       "into storage an operand or an earlier result still reaches (a result that overwrites its sibling makes a later union/difference wrong). Member arithmetic inside one "
       "representation (Count, Where, Has on colliding keys) is value-level and not decided.", NOTE, "DESIGN.md §3 C01")
@@ -79,7 +79,7 @@ claim("C18", "capability reachability over the VTA call graph with interpreter d
       "execution, network, file-content, unsafe-library or import-resolution capability is reachable (interpreter dispatch cut: evaluating an existing "
       "value mints no capability); (S18b) only host code calls StdScope; (S18c) the scope contextualEval evaluates with has `//` bound on every "
       "path and defaults to the safe library; (S18d) inside rel's evaluators no nested Eval/Bind is handed the global EmptyScope (which unbinds `//`) "
-      "on a path some caller can take; (S18e) the tuple attribute `safe` (//std.safe) is built only while SafeStdScopeTuple assembles the safe library; (S18f) the parsed sandbox configuration never comes from package-level state. Four genuine routes exist today and are listed as known findings. Leaks through a dependency's "
+      "on a path some caller can take; (S18e) the tuple attribute `safe` (//std.safe) is built only while SafeStdScopeTuple assembles the safe library; (S18f) the parsed sandbox configuration never comes from package-level state; (S18g) its keys are looked up independently of one another. Four genuine routes exist today and are listed as known findings. Leaks through a dependency's "
       "internals are not decided; the call graph over-approximates, so the claim is level other.", NOTE, "DESIGN.md §3 C18")
 
 claim("C10", "grammar/table agreement, inhabited-type analysis of unchecked assertions, TS-SCCP definite-panic stubs, recover-boundary reachability from goroutine roots, recover-to-error store rule, dimension analysis of text positions (bytes vs characters), condition-variable wake-up rule",
@@ -89,7 +89,7 @@ claim("C10", "grammar/table agreement, inhabited-type analysis of unchecked asse
       "(R10e) every goroutine root that gRPC or `go` hands us crosses a recover before compiling/evaluating client text; (R10f) no lost wake-up on "
       "the import cache's condition variable; plus the engine/import-cache liveness rules shared with C16/C17 (R17a self-communication, R17d map-miss "
       "dereference, R17e recover on the actor and around value-taking client callbacks, R17h recovered panic stored into the named error result, R19h deferred stores keep the first error, R16d "
-      "re-entrant wait); (R10h) an interface field that is called without a nil test is set by every construction of its struct; (R10g) byte positions and character positions of text are never mixed in offset arithmetic, slicing or indexing (dimension analysis). Index-out-of-range in general, nil dereference, recursion depth and termination are not decided.", NOTE, "DESIGN.md §3 C10")
+      "re-entrant wait); (R10i) sizes of make / Repeat taken from program-supplied numbers are range-checked; (R10h) an interface field that is called without a nil test is set by every construction of its struct; (R10g) byte positions and character positions of text are never mixed in offset arithmetic, slicing or indexing (dimension analysis). Index-out-of-range in general, nil dereference, recursion depth and termination are not decided.", NOTE, "DESIGN.md §3 C10")
 
 claim("C15", "dominance of recorders over readers, flag-fixed reachability of host effects along all call paths from Compile, sibling agreement of archive-location derivations",
       "Decides structural necessary conditions of bundle = sources: (R15a) every import read is either bundle-run-only or dominated by its recorder "
@@ -120,7 +120,7 @@ claim("C04", "symbolic evaluation of the join operators' combine/partitionNames 
       "handles all 8 modes (R04b). R01d (rows of two relations only meet under projectors) and R03a (no join writes a heading or row store an "
       "operand still reaches) run under this property too; (R04c) no relational helper that takes a per-element function has a return path that builds "
       "its result from the input without involving that function (nestWithFunc shared by Nest and SingleAttrNest); (R04d) a relation's stored rows are handed out in place of their projection only "
-      "under projector.isIdentity(). Row contents, column permutations "
+      "under projector.isIdentity(); (R04e) isIdentity answers true only for a projector as wide as the row. Row contents, column permutations "
       "inside the positional joins, nest/unnest inversion and rank values are value-level and not decided.", NOTE, "DESIGN.md §3 C04")
 
 claim("C12", "table extraction and agreement (printer escape table vs reader escape switch, printer identifier pattern vs grammar IDENT), transitive field-read sets of Equal vs Format",
@@ -135,14 +135,14 @@ claim("C13", "TS-SCCP of the encoder under each (strict flag, value type) contex
       "not) return, on every executable path, a content-independent result with a nil error, and no two singleton types share an image (strict mode "
       "maps five kinds of set to {}: known findings pinned by the existing tests); (R13b) the server wire format gives disjoint kinds distinct JSON "
       "shapes (arrays and sets collide: known finding); (R13c) float->integer conversions in the codecs are the round-trip idiom or range-guarded; "
-      "(R13d) a comma-ok option value stored without its flag never overrides a non-zero default; (R13e) the CSV and YAML decoders hand their payload to the codec library without trimming or rewriting it (surrounding whitespace is content in both formats). Round-trip equality itself (number ranges, CSV quoting, YAML scalars, bits) is value-level "
+      "(R13d) a comma-ok option value stored without its flag never overrides a non-zero default; (R13e) the CSV and YAML decoders hand their payload to the codec library without trimming or rewriting it (surrounding whitespace is content in both formats); (R13f) no constant (null, true, \"\") is the image of values of two different types. Round-trip equality itself (number ranges, CSV quoting, YAML scalars, bits) is value-level "
       "and not decided.", NOTE, "DESIGN.md §3 C13")
 
 claim("C05", "TS-SCCP dispatch totality of CallAll/Concatenate over all representation pairs, hole-guard sibling check in the >> evaluator, store-read-implies-offset-read rule over go/ssa",
       "Decides structural necessary conditions of keyed-collection semantics: (R05a) no CallAll(representation x argument type) or Concatenate(pair) "
       "cell definitely panics; (R05b) each branch of the >> / >>> evaluator that maps over a holey store tests the hole marker before handing the "
       "element to the function; (R05c) a function that builds a sequence from another operand's backing store also reads that operand's offset; "
-      "(R03a) no keyed-collection operator writes through a shared store. "
+      "(R05d) a dict map is rebuilt from entries only with a look-up of the key in the builder (several values per key are kept); (R03a) no keyed-collection operator writes through a shared store. "
       "Which value is returned for a key, the ?: fallback classification and shift arithmetic are value-level and not decided.", NOTE, "DESIGN.md §3 C05")
 
 claim("C02", "construction-discipline checks over go/ssa (raw re-slices of holey stores, uncanonicalised tuple allocation), table agreement of the sugar-shape switches, TS-SCCP Equal symmetry, provenance of the positional row digest",
